@@ -532,6 +532,17 @@ def run_tree(job, acc):
                 elif res6 != _ref_assoc(before, p, newval):
                     V('C17.assoc_path', 'changes-other-entries',
                       f'assoc_path(d, {p}, {newval}) gave {res6}', case)
+                # ... and so does assoc_in, without touching its input
+                d8 = copy.deepcopy(plain)
+                res8 = assoc_in(d8, p, copy.deepcopy(newval))
+                if res8 != _ref_assoc(before, p, newval):
+                    V('C17.assoc_in', 'disagrees-with-assoc_path',
+                      f'assoc_in(d, {p}, {newval}) = {res8}, expected '
+                      f'{_ref_assoc(before, p, newval)}', case)
+                if d8 != before:
+                    V('C17.assoc_in', 'mutates-input',
+                      f'assoc_in modified its input: {d8} != {before}',
+                      case)
             # delete_in removes exactly that entry
             d3 = copy.deepcopy(res)
             delete_in(d3, p)
@@ -669,3 +680,6 @@ RULE += (
 
 RULE += (
     " Establish law: a port of a process (at the root, one and two compartments deep) wired to EVERY path of length <= 4 over {a (exists), n, m (new), ..} that stays inside the hierarchy: the variable lives at the normal form of the path, walking the path reaches that node, no store is named '..'. paths_to_dict inverts EVERY permutation of the leaf list of trees with <= 4 leaves.")
+
+RULE += (
+    ' assoc_in, like assoc_path, REPLACES what is at the path when the new value is a dictionary ({} included).')
